@@ -599,9 +599,27 @@ impl World {
         let sq = self.sq.clone().unwrap();
         let i = self.ops.len();
         let fut = match cop {
-            Cop::Open(k) => Fut::One(Box::pin(
-                a10::fs::OpenOptions::new().read().kind(k.a10()).open(sq, format!("/c07/file{i}").into()),
-            )),
+            // Every way the API has of building an `Open`, with the builder calls in varying order:
+            // the requested kind must survive all of them.
+            Cop::Open(k) => Fut::One(Box::pin(match (i % 4, k) {
+                (0, _) => a10::fs::OpenOptions::new().read().kind(k.a10()).open(sq, format!("/c07/file{i}").into()),
+                (1, _) => {
+                    self.tags.insert("open:kind()-first".into());
+                    a10::fs::OpenOptions::new().kind(k.a10()).write().create().truncate().open(sq, format!("/c07/file{i}").into())
+                }
+                (2, _) => {
+                    self.tags.insert("open:open_temp_file".into());
+                    a10::fs::OpenOptions::new().kind(k.a10()).write().open_temp_file(sq, "/c07".into())
+                }
+                (_, K::Regular) => {
+                    self.tags.insert("open:fs::open_file".into());
+                    a10::fs::open_file(sq, format!("/c07/file{i}").into())
+                }
+                (_, _) => {
+                    self.tags.insert("open:open_temp_file".into());
+                    a10::fs::OpenOptions::new().read().write().create().kind(k.a10()).open_temp_file(sq, "/c07".into())
+                }
+            })),
             Cop::Socket(k) => Fut::Sock(Some(a10::net::socket(sq, a10::net::Domain::IPV4, a10::net::Type::STREAM, None).kind(k.a10()))),
             Cop::Pipe(k) => Fut::PipeF(Some(a10::pipe::pipe(sq).kind(k.a10()))),
             Cop::Accept(h) => Fut::Accept(Box::pin(self.href(h).accept::<a10::net::NoAddress>())),
@@ -785,6 +803,17 @@ impl World {
             self.fail(format!("op{i}: cannot tell which table the request allocates from: {sqe:?}"));
             return;
         };
+        // Independent of the model: the kind the builder was given is the kind the kernel is asked for.
+        if let Cop::Open(k0) | Cop::Socket(k0) | Cop::Pipe(k0) = self.ops[i].cop {
+            if k0 != k {
+                self.fail(format!(
+                    "op{i} ({}) was built with kind {} but its submission asks the kernel for a {} descriptor",
+                    self.ops[i].cop.name(),
+                    k0.coq(),
+                    k.coq()
+                ));
+            }
+        }
         let mut flags = 0;
         if more {
             flags |= abi::CQE_F_MORE;
